@@ -409,6 +409,48 @@ def gen_cases(chk):
         P = [(rng.randrange(0, 8), rng.randrange(0, 8)) for _ in range(n)]
         add("poly_random_list", "poly", P, grid=(-1, -1, 8, 8), simple=is_simple(P))
 
+    # (generator audit 2026-10-02) the same random polygons far from the origin and blown up: vertices near 2^31, 2^40, 2^52, 2^61 (the cross
+    # products need more than 64 bits; a double holds neither the coordinates nor the products), queried ON, next to and far from the boundary
+    for k in range(36 if quick else 1500):
+        gen = (gen_rectilinear, gen_45, gen_general)[k % 3]
+        P = gen(rng, 16)
+        sc = [1, 10 ** 6, 10 ** 9 + 7, 10 ** 15 + 37, 3 * 10 ** 16 + 1, 10 ** 12 + 39, 3][k % 7]
+        tx, ty = [(2 ** 31 - 200, -(2 ** 31) + 200), (-(2 ** 40), 2 ** 40 + 7), (2 ** 52 + 1, 2 ** 52 + 3), (-(2 ** 61), 2 ** 61 - 12345), (2 ** 33, -5), (0, 2 ** 53 - 1)][k % 6]
+        xs = [q[0] for q in P]; ys = [q[1] for q in P]
+        if k % 4 == 3:
+            # fill the i32 range (the coordinates of a GDSII file): extent just below 2^32 in the larger direction
+            sc = (2 ** 32 - 2) // max(max(xs) - min(xs), max(ys) - min(ys), 1)
+            tx, ty = -(2 ** 31) - sc * min(xs), -(2 ** 31) - sc * min(ys)
+        elif k % 4 == 1:
+            # fill the range in which the property itself is judged (|coordinate| < 2^30)
+            sc = (2 ** 31 - 4) // max(max(xs) - min(xs), max(ys) - min(ys), 1)
+            tx, ty = -(2 ** 30) + 1 - sc * min(xs), -(2 ** 30) + 1 - sc * min(ys)
+        elif sc > 10 ** 14:
+            tx, ty = -sc * min(xs) - 2 ** 60, -sc * min(ys) - 2 ** 60
+        if max(abs(tx), abs(ty)) + sc * max(max(abs(v) for v in xs), max(abs(v) for v in ys)) >= 2 ** 62 - 2:
+            sc, tx, ty = 1000, -(2 ** 61), 2 ** 61 - 12345
+        Q = [(tx + sc * x, ty + sc * y) for x, y in P]
+        if rng.random() < 0.5:
+            i = rng.randrange(len(Q))
+            Q = Q[i:] + Q[:i]
+        if rng.random() < 0.5:
+            Q = list(reversed(Q))
+        add("poly_large_coords" + ("" if is_simple(Q) else "_nonsimple"), "poly", Q, qs=poly_queries(rng, Q, 160), simple=is_simple(Q))
+    # many vertices: a comb with 100 teeth (402 vertices), probed in the teeth, in the gaps, on the spine and at the tips' height
+    comb = [(0, 0)]
+    for t in range(100):
+        comb += [(4 * t, 10 + (t % 3)), (4 * t + 2, 10 + (t % 3)), (4 * t + 2, 2), (4 * t + 4, 2)]
+    comb += [(400, 0)]
+    cq = []
+    for t in (0, 1, 2, 49, 50, 98, 99):
+        cq += [(4 * t + 1, 5), (4 * t + 3, 5), (4 * t + 1, 10 + (t % 3)), (4 * t + 3, 2), (4 * t + 3, 3), (4 * t + 2, 6), (4 * t, 10 + (t % 3)), (4 * t - 1, 10), (4 * t + 1, 13), (4 * t + 3, 1)]
+    add("poly_many_vertices", "poly", comb, qs=sorted(set(cq)), simple=True)
+    add("poly_many_vertices", "poly", list(reversed(comb[200:] + comb[:200])), qs=sorted(set(cq)), simple=True)
+    # rectangles whose corners are the largest and smallest integers
+    I = 2 ** 63 - 1
+    for p0, p1 in (((-I - 1, -I - 1), (I, I)), ((I, -I - 1), (-I - 1, I)), ((I, I), (I, I)), ((-I - 1, 5), (-I - 1, -5)), ((0, I), (I, 0))):
+        add("rect_extreme", "rect", [p0, p1], qs=sorted({p0, p1, (p0[0], p1[1]), (p1[0], p0[1]), (0, 0), (I, I), (-I - 1, -I - 1), (I, -I - 1), (-I - 1, I), (I - 1, I), (-I, -I - 1), (-I - 1, 0), (0, I), (1, 1)}))
+
     # 5. paths
     add("path_degenerate", "path", [], qs=[(0, 0)], w=2)
     add("path_degenerate", "path", [(1, 1)], grid=(0, 0, 2, 2), w=4)
@@ -432,6 +474,29 @@ def gen_cases(chk):
         xs = [p[0] for p in P]; ys = [p[1] for p in P]
         h = w // 2 + 2
         add("path_w_odd" if w % 2 else "path_w_even", "path", P, grid=(min(xs) - h, min(ys) - h, max(xs) + h, max(ys) + h), w=w)
+    # (generator audit 2026-10-02) paths far from the origin, long segments and large widths: queried at half the width on each side of
+    # every segment, one unit inside and outside it, and beyond both ends
+    for k in range(24 if quick else 800):
+        tx, ty = [(2 ** 31 - 40, -(2 ** 31) + 40), (-(2 ** 40), 2 ** 40 + 7), (2 ** 52 + 1, -(2 ** 52) - 3), (-(2 ** 61), 2 ** 61 - 12345), (0, 0), (2 ** 33, -5)][k % 6]
+        L = [1, 9, 1000, 10 ** 6, 2 ** 31, 2 ** 33][(k // 2) % 6]
+        w = [0, 1, 2, 3, 4, 7, 1000, 1001, 2 ** 31 - 1, 2 ** 31, 2 ** 32 + 1, 2 ** 40][k % 12]
+        n = rng.randrange(2, 5)
+        P = [(tx, ty)]
+        horiz = k % 2 == 0
+        for _ in range(n - 1):
+            d = rng.choice([-1, 1]) * rng.randrange(max(1, L // 2), L + 1)
+            a = P[-1]
+            P.append((a[0] + d, a[1]) if horiz else (a[0], a[1] + d))
+            horiz = not horiz
+        h = w // 2
+        qs = set()
+        for a, b in zip(P, P[1:]):
+            for t in (a, b, ((a[0] + b[0]) // 2, (a[1] + b[1]) // 2)):
+                for o in (0, h - 1, h, h + 1, -h + 1, -h, -h - 1):
+                    qs.add((t[0] + o, t[1])); qs.add((t[0], t[1] + o)); qs.add((t[0] + o, t[1] + o)); qs.add((t[0] + o, t[1] - o))
+            dx, dy = sgn(b[0] - a[0]), sgn(b[1] - a[1])
+            qs.add((a[0] - dx, a[1] - dy)); qs.add((b[0] + dx, b[1] + dy)); qs.add((b[0] + dx * (h + 1), b[1] + dy * (h + 1)))
+        add("path_large_coords", "path", P, qs=sorted(qs), w=w)
     return cases, dist, enum
 
 # ------------------------------------------------------------------ evaluation
